@@ -108,6 +108,8 @@ def run(rec, cfg):
     W8.two_parsers(rec, rng, _WT.corpus(), "C03", cfg.scale(6, 200))
     if cfg.shard == 2 % cfg.nshards:
         W8.marathon(rec, rng, "C03", altered_key="grammar/earlier-result-altered")
+    if cfg.shard == 3 % cfg.nshards:
+        W8.typed(rec, rng, W8.TYPED_TEXTS)
     bigrams = set()
     for src, s in strings(cfg, rng):
         if cfg.out_of_time():
